@@ -174,3 +174,8 @@ try:
 
 except Exception:  # noqa: BLE001
     pass
+
+
+@onnx_function
+def add_eps30(x):
+    return (x + 2.0 ** -30) * 1.0
